@@ -14,12 +14,12 @@ Hist == Mode \in {"history", "historyd"}
 \* template is rendered with a receiver of another type than before (string, array, integer)
 OpsD == {Op("String", "ok"), Op("String", "bad"), Op("String", "row1"), Op("String", "row2"), Op("EvalString", "row1"), Op("EvalString", "row2"),
          Op("String", "polyS"), Op("String", "polyA"), Op("String", "polyI"), Op("Response", "polyA"), Op("Response", "polyS"),
-         Op("String", "ok2"), Op("String", "bare"), Op("String", "static")}      \* pages of one layout: with inserts, with other inserts, without any
+         Op("String", "ok2"), Op("String", "bare"), Op("String", "static"), Op("String", "nested-use")}      \* pages of one layout: with inserts, with other inserts, without any
 Ops15 == IF Mode = "historyd" THEN OpsD ELSE
          {Op("String", "ok"), Op("String", "bad"), Op("String", "missing"), Op("Response", "ok"), Op("Response", "bad"),
           Op("Response", "missing"), Op("EvalString", "ok"), Op("EvalString", "bad"), Op("EvalFile", "ok")}
          \cup (IF Mode # "response" THEN {Op("String", "bad-in-loop"), Op("String", "ok2"), Op("String", "bare")} ELSE {})     \* fails inside a loop after some passes produced output
-         \cup (IF Mode = "response" THEN {Op("Response", pg) : pg \in {"bad-in-component", "bad-in-layout", "bad-at-start", "bad-in-loop", "bad-in-slot", "bad-in-insert", "bad-in-array", "bad-in-args", "bad-in-object", "bad-in-for-cond", "bad-in-elseif", "bad-in-each-else", "bad-in-for-else", "bad-lt"}} ELSE {})
+         \cup (IF Mode = "response" THEN {Op("Response", pg) : pg \in {"bad-in-component", "bad-in-layout", "bad-at-start", "bad-in-loop", "bad-in-slot", "bad-in-insert", "bad-in-array", "bad-in-args", "bad-in-object", "bad-in-for-cond", "bad-in-elseif", "bad-in-each-else", "bad-in-for-else", "bad-lt", "bad-in-assign"}} ELSE {})
          \cup (IF Mode = "history" THEN {Op("String", "setvar"), Op("String", "getvar"), Op("EvalString", "setvar"), Op("EvalString", "getvar"),
                                          Op("Response", "getvar")} ELSE {})
 Cfgs == IF Mode = "historyd" THEN {[dir |-> "t", ext |-> ".tw", errorPage |-> "", debug |-> FALSE]}
